@@ -181,8 +181,12 @@ def script(rng, eid, sid):
         cl.append((C('p', X, Y), ('and', ('call', C('p', X)), ('call', C('q', Y)))))
     if rng.random() < 0.6:
         # a recursive predicate: its activations create many clause variables that stay unbound while suspended
-        cl += gen.TEMPLATES['append']
-        cl.append((C('sp', X, Y), ('call', C('append', X, Y, gen.L([k('l%d_' % i) for i in range(rng.choice([2, 4, 6]))])))))
+        # (the helper is named per script: combined loads of a recursive predicate multiply answers exponentially)
+        an = 'app%d_%d' % (eid, sid)
+        H_, T_, R_ = V('H'), V('T'), V('R')
+        cl.append((C(an, gen.NIL, Y, Y), ('true',)))
+        cl.append((C(an, gen.L([H_], T_), Y, gen.L([H_], R_)), ('call', C(an, T_, Y, R_))))
+        cl.append((C('sp', X, Y), ('call', C(an, X, Y, gen.L([k('l%d_' % i) for i in range(rng.choice([2, 4, 6]))])))))
     return cl
 
 
